@@ -95,7 +95,18 @@ type thread struct {
 	selIdx  int
 	fn      func()
 	daemon  bool
+
+	// bounded unfairness of select: Go chooses among ready cases at random, so a loop whose select always has
+	// the same two cases ready leaves with probability 1; a default choice that takes the first ready case for
+	// ever would make such a loop an infinite execution that cannot happen. After selFairAfter consecutive
+	// executions of the select at the same position with several ready cases that all defaulted to the same
+	// case, the order of the ready cases is rotated by one for the next execution.
+	selFair map[string]*selStreak
 }
+
+type selStreak struct{ first, n int }
+
+const selFairAfter = 8
 
 // Chooser drives one execution.
 type Chooser interface {
@@ -522,6 +533,23 @@ func (e *Exec) apply(t *thread) {
 		}
 		k := 0
 		if len(ready) > 1 {
+			if t.selFair == nil {
+				t.selFair = map[string]*selStreak{}
+			}
+			st := t.selFair[op.Pos]
+			if st == nil {
+				st = &selStreak{first: -1}
+				t.selFair[op.Pos] = st
+			}
+			if st.first == ready[0] {
+				st.n++
+			} else {
+				st.first, st.n = ready[0], 1
+			}
+			if st.n > selFairAfter {
+				ready = append(ready[1:len(ready):len(ready)], ready[0])
+				st.first, st.n = ready[0], 1
+			}
 			k = e.ch.PickData(e, len(ready))
 		}
 		t.selIdx = ready[k]
